@@ -70,10 +70,13 @@ def check_aliases(ctx):
 # ---- matrices and operations --------------------------------------------------------
 def gen_dm(rng, nmin=1, mmin=1):
     n, m = gen.shape(rng, 7, 6, nmin, mmin, big=0.0)
-    dts = [rng.choice([0, 1]) for _ in range(m)]   # 0 int64, 1 float64
-    mtx = [[(float(rng.randint(-9, 40)) if dts[j] == 0 else rng.randint(-40, 160) / 8.0) for j in range(m)]
+    dts = [rng.choice([0, 1]) for _ in range(m)]   # 0 int64, 1 float64, 2 float32, 3 int32
+    if rng.random() < 0.2:
+        # numbers of one kind in different widths next to each other (float32 beside float64, int32 beside int64)
+        dts = [rng.choice([0, 3]) if t == 0 else rng.choice([1, 2]) for t in dts]
+    mtx = [[(float(rng.randint(-9, 40)) if dts[j] in (0, 3) else rng.randint(-40, 160) / 8.0) for j in range(m)]
            for _ in range(n)]
-    w = gen.weights(rng, m, rng.choice(["dyadic", "int"]))
+    w = gen.weights(rng, m, rng.choice(["dyadic", "int", "sum1", "sum1"]))
     if rng.random() < 0.2:
         # boundary weights: 0 is a legal weight and must survive every derivation like any other
         for j in (range(m) if rng.random() < 0.3 else rng.sample(range(m), rng.randint(1, m))):
@@ -89,12 +92,6 @@ def gen_dm(rng, nmin=1, mmin=1):
     return {
         "matrix": mtx, "dtypes": dts, "objectives": gen.objectives(rng, m),
         "weights": w, "alternatives": alts_, "criteria": crits_,
-    }
-    return {
-        "matrix": mtx, "dtypes": dts, "objectives": gen.objectives(rng, m),
-        "weights": w,
-        "alternatives": gen.labels(rng, n, gen.LABEL_POOL_A, "A", kinds=False),
-        "criteria": gen.labels(rng, m, gen.LABEL_POOL_C, "C", kinds=False),
     }
 
 
@@ -226,10 +223,28 @@ def py_index(sel):
     raise KeyError(k)
 
 
+DTYPES = [np.int64, np.float64, np.float32, np.int32]
+
+
+def dcode(t):
+    t = np.dtype(t)
+    for k, d in enumerate(DTYPES):
+        if t == np.dtype(d):
+            return k
+    return 99
+
+
 def build(case):
+    if any(t >= 2 for t in case["dtypes"]):
+        # narrow dtypes: a DataFrame whose columns carry them, handed to the constructor
+        import pandas as pd
+        from skcriteria.core.data import DecisionMatrix
+        df = pd.DataFrame(np.array(case["matrix"], dtype=float), index=list(case["alternatives"]), columns=list(case["criteria"]))
+        df = df.astype({c: DTYPES[t] for c, t in zip(case["criteria"], case["dtypes"])})
+        return DecisionMatrix(df, [int(o) for o in case["objectives"]], [float(x) for x in case["weights"]])
     dm = I.mkdm(np.array(case["matrix"], dtype=float), list(case["objectives"]), weights=list(case["weights"]),
                 alternatives=list(case["alternatives"]), criteria=list(case["criteria"]),
-                dtypes=[np.int64 if t == 0 else np.float64 for t in case["dtypes"]])
+                dtypes=[DTYPES[t] for t in case["dtypes"]])
     return dm
 
 
@@ -241,8 +256,8 @@ def dump(dm):
         "matrix": [[float(x) for x in r] for r in np.asarray(d["matrix"], dtype=float)],
         "objectives": [int(o) for o in d["objectives"]],
         "weights": [float(w) for w in d["weights"]],
-        "dtypes": [0 if np.issubdtype(t, np.integer) else 1 for t in d["dtypes"]],
-        "frame_dtypes": [0 if np.issubdtype(t, np.integer) else 1 for t in dm.dtypes.to_numpy()],
+        "dtypes": [dcode(t) for t in d["dtypes"]],
+        "frame_dtypes": [dcode(t) for t in dm.dtypes.to_numpy()],
     }
 
 
